@@ -33,13 +33,16 @@ fn read_max_streams(
 fn build_capabilities(
     max_streams: &HashMap<CapabilityId, u32>,
 ) -> Vec<proto::handshake::Capability> {
-    max_streams
+    let mut capabilities: Vec<_> = max_streams
         .iter()
         .map(|(id, max_streams)| proto::handshake::Capability {
             id: Some(*id),
             max_streams: Some(*max_streams),
         })
-        .collect()
+        .collect();
+    // `HashMap` iteration order is arbitrary; sort so that equal handshakes encode to identical bytes.
+    capabilities.sort_by_key(|c| c.id);
+    capabilities
 }
 
 impl zksync_protobuf::ProtoFmt for Handshake {
